@@ -5,11 +5,10 @@ import CpProofs.Hello
 
   The model reports what it does not cover (a server name the idna codec would not leave unchanged)
   with the pseudo-error `crash "UNMODELLED"`, so the law is stated as "the only crash kind reachable
-  is UNMODELLED".  On the server side the code HAS a crash that the model reproduces: the SCT list
-  (`TlsExtensionSignedCertificateTimestampServer`) raises `TypeError` for the all-ones timestamp; the
-  full statement is kept as a `def … : Prop` with a witness, and what holds is proved.  The
-  fuel-exhaustion crash `"NonTermination"` of the item loops is unreachable: every item parser
-  consumes at least one byte.
+  is UNMODELLED".  The server side reaches no class at that boundary: no crash at all
+  (`tlsServerHello_full`; the SCT list's `TypeError` for the all-ones timestamp is repaired in the
+  code, the input that raised it is kept below as a regression example).  The fuel-exhaustion crash
+  `"NonTermination"` of the item loops is unreachable: every item parser consumes at least one byte.
 -/
 namespace Cp.C02
 open Cp Cp.Codec Cp.Tls Cp.Hello
@@ -18,27 +17,11 @@ open Cp Cp.Codec Cp.Tls Cp.Hello
 codec would not leave unchanged) -/
 theorem tlsClientHello : NoCrashButUnmodelled clientHelloCodec := clientHello_noCrash
 
-/-- the full statement for the server side — FALSE of the code: the SCT list's constructor raises a
-`TypeError` for the "no timestamp" sentinel (`tlsServerHello_fails`) -/
-def tlsServerHello_full : Prop := ∀ typ, NoCrashButUnmodelled (serverHelloCodec typ)
+/-- the server side, full strength: no exception outside the four documented parse errors -/
+theorem tlsServerHello_full (typ : Nat) : NoCrash (serverHelloCodec typ) := serverHello_noCrash typ
 
-/-- a ServerHello whose signed_certificate_timestamp extension carries an SCT with the all-ones
-timestamp: `parse_timestamp` returns `None`, the attrs validator of `SignedCertificateTimestamp`
-raises `TypeError` -/
-def sctSentinelHello : Bytes :=
-  let sct : Bytes := [0] ++ List.replicate 32 0x11 ++ List.replicate 8 0xff ++ [0, 0, 4, 3, 0, 0]
-  let list : Bytes := [0, 47] ++ sct
-  let ext : Bytes := [0, 18, 0, 51, 0, 49] ++ list
-  let body : Bytes := [3, 3] ++ List.replicate 32 7 ++ [0, 0x13, 0x01, 0] ++ [0, 55] ++ ext
-  [2, 0, 0, 95] ++ body
-
-theorem tlsServerHello_fails : ¬ tlsServerHello_full := by
-  intro h
-  have h1 : (serverHelloCodec 2).parse sctSentinelHello = .error (.crash "TypeError") := by decide +kernel
-  exact absurd (h 2 _ _ h1) (by decide)
-
-/-- what holds: besides the boundary marker only that `TypeError` is reachable -/
-theorem tlsServerHello_partial (typ : Nat) : NoCrashButTypeError (serverHelloCodec typ) := serverHello_noCrash typ
+theorem tlsServerHello (typ : Nat) : NoCrashButUnmodelled (serverHelloCodec typ) :=
+  fun b k h => absurd h (serverHello_noCrash typ b k)
 
 /-- the certificate message touches no unmodelled class: no crash at all -/
 theorem tlsCertificateMessage : NoCrash certificateCodec := certificate_noCrash
@@ -46,15 +29,8 @@ theorem tlsCertificateMessage : NoCrash certificateCodec := certificate_noCrash
 /-- `TlsHandshakeCertificateRequest`: no crash at all -/
 theorem tlsCertificateRequest : NoCrash certificateRequestCodec := certificateRequest_noCrash
 
-/-- `TlsHandshakeMessageVariant`, full statement — false for the same reason -/
-def tlsHandshakeVariant_full : Prop := NoCrashButUnmodelled handshakeCodec
-
-theorem tlsHandshakeVariant_fails : ¬ tlsHandshakeVariant_full := by
-  intro h
-  have h1 : handshakeCodec.parse sctSentinelHello = .error (.crash "TypeError") := by decide +kernel
-  exact absurd (h _ _ h1) (by decide)
-
-theorem tlsHandshakeVariant_partial : NoCrashButTypeError handshakeCodec := handshake_noCrash
+/-- `TlsHandshakeMessageVariant`: the only crash kind is the boundary marker (through ClientHello) -/
+theorem tlsHandshakeVariant_full : NoCrashButUnmodelled handshakeCodec := handshake_noCrash
 
 /-- the item loops of the vectors inside the hello messages always terminate -/
 theorem tlsHandshakeVariant_terminates (b : Bytes) :
@@ -63,23 +39,85 @@ theorem tlsHandshakeVariant_terminates (b : Bytes) :
   have := handshake_noCrash b _ h
   exact absurd this (by decide)
 
-/-- every error of one position of the extension vector is a documented one, the marker, or — only
-when the variant list has the SCT class — that class's `TypeError` -/
+/-- every error of one position of the extension vector is a documented one, or — only when the
+variant list has a class at the model's boundary — the marker -/
 theorem tlsExtensionItem {variants : List (String × Nat)} {bs : Bytes} {e : PErr}
     (h : parseExt variants bs = .error e) :
-    Benign e ∨ e = unmodelled ∨ (e = .crash "TypeError" ∧ hasSct variants = true) := by
-  rcases parseExt_err h with (hb | hu) | ht
-  · exact .inl hb
-  · exact .inr (.inl hu)
-  · exact .inr (.inr ht)
+    Benign e ∨ (e = unmodelled ∧ hasBoundary variants = true) := parseExt_err h
 
-/-- the client variant has no SCT class: no `TypeError` on that side -/
-theorem tlsExtensionItemClient {bs : Bytes} {e : PErr}
-    (h : parseExt Gen.extVariantsClient bs = .error e) : Benign e ∨ e = unmodelled := by
-  rcases tlsExtensionItem h with hb | hu | ⟨_, hs⟩
-  · exact .inl hb
-  · exact .inr hu
-  · rw [client_has_no_sct] at hs; cases hs
+/-- the server variant has no such class: documented errors only -/
+theorem tlsExtensionItemServer {bs : Bytes} {e : PErr}
+    (h : parseExt Gen.extVariantsServer bs = .error e) : Benign e := by
+  rcases parseExt_err h with hb | ⟨_, hs⟩
+  · exact hb
+  · rw [server_has_no_boundary] at hs; cases hs
+
+/-! ### which error: an extension that is there in full is never `NotEnoughData`
+
+The variant reports a class that runs short of data inside a COMPLETE extension as `InvalidValue`, and
+the list keeps that extension by the fallback class.  `HoldsExt bs`: `bs` has the four header bytes and
+the data the header declares. -/
+
+/-- `TlsExtensionVariantClient/Server`: never `NotEnoughData` on a whole extension -/
+theorem tlsExtensionVariant_complete (variants : List (String × Nat)) {bs : Bytes} (h : HoldsExt bs) (n : Int) :
+    parseExtVariant variants bs ≠ .error (.notEnough n) := parseExtVariant_complete variants h n
+
+/-- one position of `TlsExtensionsClient/Server` on a whole extension: it parses, or a vector nested in
+the body raises `TooMuchData`, or (client side only) the model's boundary is reached — neither
+`NotEnoughData` nor `InvalidValue` -/
+theorem tlsExtensionItem_complete {variants : List (String × Nat)} {bs : Bytes} (h : HoldsExt bs) {e : PErr}
+    (he : parseExt variants bs = .error e) :
+    (∃ n, e = .tooMuch n) ∨ (e = unmodelled ∧ hasBoundary variants = true) := parseExt_complete h he
+
+/-- the converse reading: `NotEnoughData` at a position means the list does not hold a whole extension there -/
+theorem tlsExtensionItem_notEnough {variants : List (String × Nat)} {bs : Bytes} {n : Int}
+    (h : parseExt variants bs = .error (.notEnough n)) : ¬ HoldsExt bs := parseExt_notEnough_inv h
+
+/-- the extension list of the client hello fails with `NotEnoughData` only when the list is cut short or,
+at a position the item loop reaches, what is left of the list does not hold a whole extension -/
+theorem tlsExtensionsClient_notEnough {bs : Bytes} {n : Int}
+    (h : parseExtensions Gen.extVariantsClient (vp Gen.vec_TlsExtensionsClient) bs = .error (.notEnough n)) :
+    bs.length < 2 ∨ (bs.drop 2).length < decNat .network (bs.take 2) ∨
+    ∃ k, k < decNat .network (bs.take 2) ∧
+      ¬ HoldsExt (((bs.drop 2).take (decNat .network (bs.take 2))).drop k) :=
+  parseExtensions_notEnough_inv clientHello_size_facts.2.1 (by decide +kernel) h
+
+theorem tlsExtensionsServer_notEnough {bs : Bytes} {n : Int}
+    (h : parseExtensions Gen.extVariantsServer (vp Gen.vec_TlsExtensionsServer) bs = .error (.notEnough n)) :
+    bs.length < 2 ∨ (bs.drop 2).length < decNat .network (bs.take 2) ∨
+    ∃ k, k < decNat .network (bs.take 2) ∧
+      ¬ HoldsExt (((bs.drop 2).take (decNat .network (bs.take 2))).drop k) :=
+  parseExtensions_notEnough_inv serverHello_size_facts.2.1 (by decide +kernel) h
+
+/-- an ALPN extension of length 0 in front of another extension: kept by the fallback class -/
+example : parseExtensions Gen.extVariantsClient (vp Gen.vec_TlsExtensionsClient) [0, 8, 0, 16, 0, 0, 0, 23, 0, 0] =
+    .ok ([⟨"TlsExtensionUnparsed", 16, .raw []⟩, ⟨"TlsExtensionExtendedMasterSecret", 23, .empty⟩], 10) := by
+  decide +kernel
+
+/-- the variant itself reports it as an invalid value; the class parsed directly is short of data -/
+example : parseExtVariant Gen.extVariantsClient [0, 16, 0, 0, 0, 23, 0, 0] = .error .invalidValue := by
+  decide +kernel
+example : parseExtBody (.ext2 .protocolNames) 0 [] = .error (.notEnough 2) := by decide +kernel
+
+/-- a truncated extension is still `NotEnoughData` -/
+example : parseExtVariant Gen.extVariantsClient [0, 16, 0, 5, 0, 3, 2] = .error (.notEnough 9) := by
+  decide +kernel
+
+/-! regression: the input that used to raise `TypeError` -/
+
+/-- a ServerHello whose signed_certificate_timestamp extension carries an SCT with the all-ones
+timestamp: the SCT is an invalid value, the extension is kept by the fallback class -/
+def sctSentinelHello : Bytes :=
+  let sct : Bytes := [0] ++ List.replicate 32 0x11 ++ List.replicate 8 0xff ++ [0, 0, 4, 3, 0, 0]
+  let list : Bytes := [0, 47] ++ sct
+  let ext : Bytes := [0, 18, 0, 51, 0, 49] ++ list
+  let body : Bytes := [3, 3] ++ List.replicate 32 7 ++ [0, 0x13, 0x01, 0] ++ [0, 55] ++ ext
+  [2, 0, 0, 95] ++ body
+
+example : (serverHelloCodec 2).parse sctSentinelHello =
+    .ok (⟨2, 4, ⟨0x07070707, List.replicate 28 7⟩, [], 361, 0,
+      [⟨"TlsExtensionUnparsed", 18, .raw ([0, 49, 0, 47, 0] ++ List.replicate 32 0x11 ++ List.replicate 8 0xff ++
+        [0, 0, 4, 3, 0, 0])⟩]⟩, 99) := by decide +kernel
 
 /-! non-vacuity: the marker is reachable, and so are the documented errors -/
 
